@@ -1443,6 +1443,21 @@ class SymEval:
             if m.startswith("checked"):
                 return ("some", r_) if 0 <= r_ < (1 << 64) else NONE
             return min(max(r_, 0), (1 << 64) - 1)
+        if isinstance(recv, int) and not isinstance(recv, bool) and len(args) == 1 and isinstance(args[0], int) and not isinstance(args[0], bool) \
+                and m in ("min", "max", "pow", "div_ceil", "next_multiple_of", "wrapping_sub", "wrapping_add"):
+            a_, b_ = recv, args[0]
+            if m in ("min", "max"):
+                return min(a_, b_) if m == "min" else max(a_, b_)
+            if m == "pow":
+                r_ = a_ ** b_
+                if r_ >= (1 << 64):
+                    raise Panic("arithmetic overflow in pow")
+                return r_
+            if m in ("div_ceil", "next_multiple_of"):
+                if b_ == 0:
+                    raise Panic("division by zero")
+                return -(-a_ // b_) * (b_ if m == "next_multiple_of" else 1)
+            self.fail("wrapping arithmetic needs the operand width", e)
         if isinstance(recv, bool) and m == "then" and len(args) == 1:
             return ("some", self.apply(args[0], [])) if recv else NONE
         if isinstance(recv, bool) and m == "then_some" and len(args) == 1:
